@@ -31,7 +31,7 @@ def plan(tier, seed):
 
 
 def floors(tier):
-    return {"evaluations": 100, "strata": ["default-scale/svg", "default-scale/tikz", "own-scale/svg", "own-scale/tikz", "repeated-export", "shared-data-objects", "value-equal-twin", "several-timelines-without-options", "shared-options-object", "after-a-failing-construction", "after-a-failed-export-to-file"],
+    return {"evaluations": 100, "strata": ["default-scale/svg", "default-scale/tikz", "own-scale/svg", "own-scale/tikz", "repeated-export", "shared-data-objects", "value-equal-twin", "several-timelines-without-options", "shared-options-object", "after-a-failing-construction", "after-a-failed-export-to-file", "repeated-export-with-palettes-and-textless-data"],
             "events": {"history_processes": 30, "reference_processes": 60, "noninterference": 100}, "distinct_nontrivial": 30, "max_inconclusive_frac": 0.05}
 
 
@@ -76,6 +76,27 @@ def gen_history(rng):
 
         dated(0, rng.choice([25, 40, 80, 150]))
         dated(1, rng.choice([5, 6, 7, 9]))
+    if rng.random() < 0.2 and specs[0]["options"] is not None and len(specs[0]["data"]) >= 3:
+        # list-valued colour options (palettes indexed by the datum's position) on a timeline where some data have no text,
+        # among them the first in input order and the earliest: the text colour is then asked for a *subsequence* of the
+        # indices that never contains 0 (seeded/C10o: a palette walker that restarts only at index 0 carries its position
+        # over to the next export of the same timeline)
+        o0, d0 = specs[0]["options"], specs[0]["data"]
+        for cname in ("dotColor", "linkColor", "labelBgColor", "labelTextColor"):
+            o0[cname] = list(TL.PALETTE6[: rng.choice([2, 3, 7])]) if rng.random() < 0.6 else list(TL.PALETTE3)
+        try:
+            earliest = min(range(len(d0)), key=lambda i: TL.normalise_time(d0[i]["time"]))
+        except Exception:
+            earliest = 0
+        for i in {0, earliest, rng.randrange(len(d0))}:
+            d0[i].pop("text", None)
+        others = [i for i in range(len(d0)) if "text" not in d0[i] and i not in (0, earliest)]
+        for i in range(len(d0)):
+            if i not in (0, earliest) and (i not in others or rng.random() < 0.5):
+                d0[i].setdefault("text", "P%d" % i)
+        palette_textless = True
+    else:
+        palette_textless = False
     # some timelines are given the very data objects of an earlier one (same values, own options: another direction/back-end)
     share = {}
     twins = []
@@ -155,7 +176,8 @@ def gen_history(rng):
         ops.append(["export", k])
     if rng.random() < 0.25:
         ops.insert(rng.randrange(1, len(ops)), ["failing", rng.randrange(2)])  # a failing construction somewhere in between
-    return {"specs": specs, "backends": backends, "ops": ops, "share_data": share, "twins": twins, "share_options": share_options}
+    return {"specs": specs, "backends": backends, "ops": ops, "share_data": share, "twins": twins, "share_options": share_options,
+            "palette_textless": palette_textless and isinstance((specs[0]["options"] or {}).get("labelTextColor"), list)}
 
 
 def run_proc(h, timeout=600, hashseed="0"):
@@ -233,6 +255,8 @@ def run_history(ctx, h, refs):
             continue
         if k in seen_export:
             ctx.stratum("repeated-export", generated=1, judged=1, held=1)
+            if k == 0 and h.get("palette_textless"):
+                ctx.stratum("repeated-export-with-palettes-and-textless-data", generated=1, judged=1, held=1)
         seen_export[k] = e["doc"]
         sh = h.get("share_data") or {}
         if str(k) in sh or k in sh.values():
